@@ -3,7 +3,8 @@
 The model's `respond` event runs the tail of `async_subscribe` (from registering the SID to `return`) to completion and its `notify`
 event runs `handle_notify` to completion.  That is right only if (a) `handle_notify` contains no `await` at all and (b) the only
 `await` after `self._subscriptions[sid] = service` in `async_subscribe` is the replay's `await self.handle_notify(...)`.  Both facts
-are read from the source here and pinned by `C11.atomicity_pinned`."""
+are read from the source here and pinned by `C11.atomicity_pinned`.  Also read: the notify server in front of the handler
+(`aiohttp.AiohttpNotifyServer._handle_request`) only forwards (pinned by `C11.notify_server_forwards_pinned`)."""
 from __future__ import annotations
 
 import ast
@@ -24,6 +25,75 @@ def is_handle_notify(aw) -> bool:
     v = getattr(aw, "value", None)
     return (isinstance(aw, ast.Await) and isinstance(v, ast.Call) and isinstance(v.func, ast.Attribute) and v.func.attr == "handle_notify"
             and isinstance(v.func.value, ast.Name) and v.func.value.id == "self")
+
+
+AIO = "async_upnp_client/aiohttp.py"
+
+
+def _is_log_stmt(st) -> bool:
+    """`_LOGGER….debug(...)` / `…isEnabledFor` bookkeeping — no effect on the request"""
+    if isinstance(st, ast.Expr) and isinstance(st.value, ast.Constant):
+        return True
+    if isinstance(st, ast.Expr) and isinstance(st.value, ast.Call) and isinstance(st.value.func, ast.Attribute) \
+            and st.value.func.attr in ("debug", "info", "warning", "error") and isinstance(st.value.func.value, ast.Name) \
+            and st.value.func.value.id.startswith("_LOGGER"):
+        return True
+    if isinstance(st, ast.Assign) and len(st.targets) == 1 and isinstance(st.targets[0], ast.Name) and st.targets[0].id == "log_traffic":
+        return True
+    if isinstance(st, ast.If) and isinstance(st.test, ast.Name) and st.test.id == "log_traffic" and not st.orelse:
+        return all(_is_log_stmt(x) for x in st.body)
+    return False
+
+
+def _attr(e, base, attr) -> bool:
+    return isinstance(e, ast.Attribute) and e.attr == attr and isinstance(e.value, ast.Name) and e.value.id == base
+
+
+def _response_status(e):
+    """aiohttp.web.Response(status=<expr>) -> <expr>"""
+    if isinstance(e, ast.Call) and isinstance(e.func, ast.Attribute) and e.func.attr == "Response" and not e.args \
+            and len(e.keywords) == 1 and e.keywords[0].arg == "status":
+        return e.keywords[0].value
+    return None
+
+
+def notify_server_forwards(repo: Path) -> bool:
+    """`AiohttpNotifyServer._handle_request` does nothing but: read headers and body, answer 405 to a method other than NOTIFY,
+    forward (headers, body) to `event_handler.handle_notify` and answer with the status it returns (logging aside)."""
+    fn = find_method(extract.parse(repo, AIO), "AiohttpNotifyServer", "_handle_request")
+    seen = []
+    for st in fn.body:
+        if _is_log_stmt(st):
+            continue
+        if isinstance(st, ast.Assign) and len(st.targets) == 1 and isinstance(st.targets[0], ast.Name):
+            name, v = st.targets[0].id, st.value
+            if name == "headers" and _attr(v, "request", "headers"):
+                seen.append("headers"); continue
+            if name == "body" and isinstance(v, ast.Await) and isinstance(v.value, ast.Call) and not v.value.args \
+                    and _attr(v.value.func, "request", "text"):
+                seen.append("body"); continue
+            if name == "status" and isinstance(v, ast.Await) and isinstance(v.value, ast.Call) \
+                    and isinstance(v.value.func, ast.Attribute) and v.value.func.attr == "handle_notify" \
+                    and _attr(v.value.func.value, "self", "event_handler") and not v.value.keywords \
+                    and [getattr(a, "id", None) for a in v.value.args] == ["headers", "body"]:
+                seen.append("forward"); continue
+            return False
+        if isinstance(st, ast.If) and not st.orelse and isinstance(st.test, ast.Compare) and len(st.test.ops) == 1 \
+                and isinstance(st.test.ops[0], ast.NotEq) and _attr(st.test.left, "request", "method") \
+                and isinstance(st.test.comparators[0], ast.Constant) and st.test.comparators[0].value == "NOTIFY":
+            rest = [x for x in st.body if not _is_log_stmt(x)]
+            if len(rest) == 1 and isinstance(rest[0], ast.Return):
+                code = _response_status(rest[0].value)
+                if isinstance(code, ast.Constant) and code.value == 405:
+                    seen.append("guard"); continue
+            return False
+        if isinstance(st, ast.Return):
+            code = _response_status(st.value)
+            if isinstance(code, ast.Name) and code.id == "status":
+                seen.append("return"); continue
+            return False
+        return False
+    return seen in (["headers", "body", "guard", "forward", "return"], ["body", "headers", "guard", "forward", "return"])
 
 
 @extract.generator("C11Race")
@@ -49,5 +119,8 @@ def gen(repo: Path) -> str:
     out += f"def tailReplayAwaits : Nat := {len(tail) - len(other)}\n"
     out += "/-- … and any other (each one is a point where a NOTIFY can overtake the replay) -/\n"
     out += f"def tailOtherAwaits : Nat := {len(other)}\n"
+    out += "\n/-- `AiohttpNotifyServer._handle_request` only forwards: headers and body of a NOTIFY go to `handle_notify` unchanged and\n"
+    out += "    its status is the answer (405 for other methods; logging aside) -/\n"
+    out += f"def notifyServerForwards : Bool := {'true' if notify_server_forwards(repo) else 'false'}\n"
     out += "\nend Upnp.Gen.C11Race\n"
     return out
